@@ -4,8 +4,10 @@ import copy
 import random
 import signal
 
-from . import gen, obs, ops, ops_conf, ops_io, ops_nx, ops_paths, ops_stats, oracles, simfs
+from . import gen, isolate, obs, ops, ops_conf, ops_io, ops_nx, ops_paths, ops_stats, oracles, simfs
 from .core import Abort, Hang, Precondition, Violation, World, call, exc_class
+
+isolate.reset()     # records the pristine library state (dynetx is imported by now)
 
 # ---------------------------------------------------------------------------- focus table
 # roots: list of (directed, removal) the focus may draw; armed: per-step state oracles;
@@ -625,6 +627,7 @@ def shadow_replay(world):
 def run(focus, seed=None, ops_list=None, profile=None, keep_log=False):
     """one simulated run: generated from `seed`, or replayed from a concrete operation list"""
     res = RunResult()
+    isolate.reset()               # the library state of a fresh interpreter: a run is a function of its seed
     world = World(focus, profile)
     world.armed = set(FOCUS[focus]['armed'])
     world.evals = 0
